@@ -15,19 +15,52 @@
        dimensions: C02_dimensions_transparent (codec model Model/DimCodec.v, round trip C02_dim_roundtrip, Req = eq)
        trees:      C02_trees_transparent_self (Req = seq, serialized form abstracted by t_reload; the link from bytes
                    to t_reload is tree-b's tree_reload_below_cap, which includes the dictionary-stability argument of C12)
-       dicts, segments: C12 dict_codec_roundtrip and C14 s_codec_roundtrip exist; not instantiated here.
+       segments:   C02_segments_transparent (seg's codec_roundtrip; Req = eq; valid = the default object or a non-empty
+                   segment with the invariants of reachable segments and counters within their fields)
+       dicts:      C02_dicts_transparent (tree-b's dict_codec_roundtrip; Req = eq; valid = weight < 2^64)
+       trees+dicts: C02_trees_with_dict_transparent — the bytes of a tree saved against dictionary d decode to t_reload t
+                   against whatever the dictionary STORE (with its own evictions and restarts) returns later, as long as
+                   the uncached dictionary only grew (tree-b's tree_reload_codec + C02_dicts_transparent); at Close this
+                   discipline is the flush order trees-before-dictionaries (C02_flush_order_keeps_names).
      Side conditions carried by the shape of the history (is_sync): an eviction is followed by the completion of its
      saves before the next client operation (VerifEvict waits on the eviction barrier; excludes D11), no write-back
      (excludes D10: C02_writeback_refuted), a mutation directly follows the Get that returned the object.
    C02_step_simulation — the same as a one-step simulation, for clients that are not lists of operations.
    C02_flush_order_keeps_names / _swapped_refuted — why Close flushes trees before dictionaries (abstract model).
-   NOT proved: the composition over the four caches inside the storage model (Model/Storage.v is written over plain
-   maps, not over an abstract KV).  The storage-level statement is checked on the implementation by the correspondence
-   run (two-run comparison).  Found there: totals of floor-scaled per-bucket trees are recomputed on decode — known
+   NOT proved: the composition inside the storage model.  The exact remaining gap to a storage-level C02_refines over
+   Model/Storage.v (plain association lists; the only access points are tree_get / tree_store / tree_remove on st_trees
+   and seg_lookup / seg_store / seg_remove on st_segs; the index is abstracted by sel_matches over st_segs, names live in
+   the trees, so dimensions and dictionaries do not occur in it):
+     (1) a second step function cst_step : option Z -> cst_state -> st_op -> cst_state * st_out that is st_step with
+         tree_get k := ORead k on a trees cache (Model/Cache.v step, codec tr_enc/tr_dec), tree_store k t := OPut k t,
+         tree_remove k := ODelete k, and likewise seg_lookup/seg_store/seg_remove on a segments cache (sg_enc/sg_dec);
+         plus cst_maint for OEvict/OSaveCompletes/OFlushReopen on either cache.  Because a Put reads trees, merges and
+         stores them, the cache operations of one st_step depend on earlier reads: this is a fold of cache steps inside
+         put_cb_apply / st_get, not a fixed operation list — hence C02_step_simulation, not the list theorem, is the tool.
+     (2) the lemma to prove, by C02_step_simulation at every cache access:
+           StInv cst st -> admissible (no access to a key with a save in flight) ->
+           let (st', out) := st_step thr st o in let (cst', cout) := cst_step thr cst o in
+           StInv cst' st' /\ out_seq cout out
+         where StInv cst st := Inv _ tr_dec (Rel tvalid seq) (trees cache of cst) (fun k => tree_lookup k (st_trees st)) rest
+                              /\ Inv _ sg_dec (Rel sg_valid eq) (segments cache of cst) (fun k => seg_lookup k (st_segs st)) rest,
+         out_seq relates OutGet answers by seq on go_tree and equality on go_timeline / go_meta, and
+         StInv cst st -> StInv (cst_maint m cst) st for every maintenance step m (spec_step of those is the identity).
+     (3) its ingredients beyond this file: seq-congruence and validity of everything Storage does to trees —
+         put_cb_apply (t_clone, t_merge of addons, t_merge into the stored tree: clone_seq, merge_seq, t_clone_sub,
+         t_merge_sub, t_merge_wfb) and st_get (t_clone of every cover tree, merge_serial, the final average clone:
+         tree-b's eval_seq covers exactly such merge/clone expressions); sg_valid of every stored segment (seg's
+         reachable_ok, s_put_ok, plus the uint64 bounds as hypotheses); the default of a missing tree is t_empty on
+         both sides (tree_get) and of a missing segment s_empty (seg_lookup ... | None => s_empty), which is what
+         tr_dflt / sg_dflt are.
+     (4) outside Model/Storage.v altogether: the dimension store (C02_dimensions_transparent covers the cache; that the
+         cached index answers sel_matches is C07) and the dictionary coupling (C02_trees_with_dict_transparent).
+   The storage-level statement is checked on the implementation by the correspondence run (two-run comparison).  Found there: totals of floor-scaled per-bucket trees are recomputed on decode — known
    finding scaled-totals-reloaded; hence "seq", not "teq", in the trees instance. *)
 From Coq Require Import List NArith.
 From Pyro Require Import Model.Base Model.Varint Model.Tree Model.TreeCodec Model.DimCodec Model.Lfu Model.Cache Model.FlushOrder.
-From Pyro Require Import Proofs.CacheProofs Proofs.C02Lift Proofs.DimCodecProofs Proofs.FlushOrderProofs Proofs.TreeReloadProofs Proofs.C02Trees.
+From Pyro Require Import Model.Segment Model.SegCodec Proofs.SegStruct Proofs.SegCodecProofs Proofs.TreeCodecProofs.
+From Pyro Require Model.Dict Proofs.DictProofs.
+From Pyro Require Import Proofs.CacheProofs Proofs.C02Lift Proofs.DimCodecProofs Proofs.FlushOrderProofs Proofs.TreeReloadProofs Proofs.C02Trees Proofs.C02Stores.
 Import ListNotations.
 
 Theorem C02_cache_transparent :
@@ -83,6 +116,42 @@ Theorem C02_trees_transparent_self :
               (rets (fst (run keq tr_dflt tr_enc tr_dec c_empty (lower (filter (fun o => negb (is_maint o)) cops))))).
 Proof. exact (@trees_transparent_self). Qed.
 Print Assumptions C02_trees_transparent_self.
+
+(* instance 3 — the segments cache (codec model Model/SegCodec.v over an abstract metadata codec with its round trip) *)
+Theorem C02_segments_transparent :
+  forall (enc_meta : meta -> bytes) (dec_meta : bytes -> option meta),
+  (forall m, dec_meta (enc_meta m) = Some m) ->
+  (forall m, (Nlen (enc_meta m) < 2 ^ 64)%N) ->
+  forall (Kb : Z) cops,
+  forallb (is_sync (K:=bytes) (V:=segment)) cops = true ->
+  Forall (seg_op Kb) (lower cops) ->
+  rets (fst (run bytes_eq_dec sg_dflt (sg_enc enc_meta) (sg_dec dec_meta) c_empty (lower cops))) =
+  rets (fst (run bytes_eq_dec sg_dflt (sg_enc enc_meta) (sg_dec dec_meta) c_empty (lower (filter (fun o => negb (is_maint o)) cops)))).
+Proof. exact segments_transparent. Qed.
+Print Assumptions C02_segments_transparent.
+
+(* instance 4 — the dictionaries cache *)
+Theorem C02_dicts_transparent : forall cops,
+  forallb (is_sync (K:=bytes) (V:=Dict.trie)) cops = true ->
+  Forall dict_op (lower cops) ->
+  rets (fst (run bytes_eq_dec dc_dflt dc_enc dc_dec c_empty (lower cops))) =
+  rets (fst (run bytes_eq_dec dc_dflt dc_enc dc_dec c_empty (lower (filter (fun o => negb (is_maint o)) cops)))).
+Proof. exact dicts_transparent. Qed.
+Print Assumptions C02_dicts_transparent.
+
+(* trees are encoded against a dictionary that lives in its own cache and may grow later *)
+Theorem C02_trees_with_dict_transparent :
+  forall cap t d ops (cops : list (cop (K:=bytes) (V:=Dict.trie))) i,
+  t_wfb t = true -> t_fitsb t = true -> (t_size t <= cap)%nat ->
+  (Dict.tr_weight d + names_weight 0 t + DictProofs.ops_weight ops < two55)%N ->
+  forallb (is_sync (K:=bytes) (V:=Dict.trie)) cops = true ->
+  Forall dict_op (lower cops) ->
+  nth_error (rets (fst (run bytes_eq_dec dc_dflt dc_enc dc_dec c_empty (lower (filter (fun o => negb (is_maint o)) cops))))) i
+    = Some (fold_left Dict.d_step ops (snd (tc_serialize cap t d))) ->
+  exists dl, nth_error (rets (fst (run bytes_eq_dec dc_dflt dc_enc dc_dec c_empty (lower cops)))) i = Some dl /\
+             tc_deserialize dl (fst (tc_serialize cap t d)) = Some (t_reload t).
+Proof. exact trees_with_dict_transparent. Qed.
+Print Assumptions C02_trees_with_dict_transparent.
 
 (* one step of the simulation, for clients that are not lists of operations (the storage model calls the cache
    operation by operation): the invariant Inv relates a cache state to a plain map and is preserved by every
